@@ -82,7 +82,7 @@ def indices(rng, bits):
 
 
 def gen(rng, tier):
-    n = 60000 if tier == 'quick' else 2000000
+    n = 60000 if tier == 'quick' else 5000000
     exh = 8 if tier == 'quick' else 10
     for bits in range(0, exh + 1):
         for a in range(1 << bits):
@@ -122,3 +122,31 @@ def gen(rng, tier):
             i = rng.choice(indices(rng, bits))
             yield 'setbit %d %s %s %s' % (bits, hx(a), hx(i), rng.choice('tf'))
         k += 1
+
+
+def extra_checks(tier, rng, findings):
+    """thorough tier: re-run the corpus and a quick-size sample against the harness built with the
+    release profile (debug assertions and overflow checks off: `<<`/`>>` amounts wrap instead of panicking,
+    `debug_assert!`s vanish), compare with model and spec again."""
+    if tier != 'thorough':
+        return {}
+    import os
+    import random
+    import vlib
+    binpath, secs = vlib.build_harness(BIN, release=True)
+    drv = os.path.join(vlib.LEAN, '.lake', 'build', 'bin', DRV)
+    cases = []
+    cpath = os.path.join(vlib.ROOT, 'corpus', 'C06.cases')
+    if os.path.exists(cpath):
+        cases += [l.strip() for l in open(cpath) if l.strip() and not l.startswith('#')]
+    cases += list(gen(random.Random(rng.getrandbits(32)), 'quick'))
+    impl, _ = vlib.run_impl(binpath, cases)
+    ms = vlib.run_model(drv, cases, impl)
+    viol = []
+    for c, i, (m, s) in zip(cases, impl, ms):
+        k = vlib.classify(c, i, m, s)
+        if k:
+            viol.append(('impl-violation' if k == 'model-error' else k, c + '   [release profile]', i, m, s))
+    return {'violations': viol,
+            'coverage': {'release_profile': {'cases': len(cases), 'mismatches': len(viol), 'build_s': round(secs, 1),
+                                             'profile': 'release: opt-level=2, debug-assertions=off, overflow-checks=off'}}}
